@@ -8,7 +8,7 @@ import (
 
 func TestRtsp(t *testing.T) {
 	pbt.Run(t, pbt.Spec[RtspCase]{
-		ID: "C07", Name: "rtsp", Gen: genRtsp, Run: runRtsp, Classify: classifyRtsp,
+		ID: "C07", Name: "rtsp", Gen: genRtsp, Run: runRtsp, Classify: classifyRtsp, Isolate: true,
 		Quick: 700, Thorough: 3200,
 	})
 }
